@@ -34,6 +34,15 @@ func method(recv *Atom, f string, args ...*Expr) *Expr {
 }
 func fn(f string, args ...*Expr) *Atom { return &Atom{Kind: "func", F: f, Args: args} }
 
+// the nested object is reached through the pointer field In or through the interface-typed field Any
+func (g *gen) inner() string {
+	if g.p.chance(1, 3) {
+		g.ops["path.through-interface-field"]++
+		return "Any"
+	}
+	return "In"
+}
+
 var intFields = []string{"I", "I8", "I16", "I32", "I64", "U", "U8", "U16", "U32", "U64"}
 
 // an int64-typed readable path (as Var)
@@ -42,7 +51,7 @@ func (g *gen) intVar() *Var {
 	case 0, 1, 2:
 		return vPath("F", pick(g.p, intFields))
 	case 3:
-		return vPath("F", "In", "X")
+		return vPath("F", g.inner(), "X")
 	case 4:
 		return vSel(vPath("F", "Arr"), cInt(int64(g.p.intn(3))))
 	case 5:
@@ -59,7 +68,7 @@ func (g *gen) floatVar() *Var {
 	case 0:
 		return vPath("F", "F32")
 	case 1:
-		return vPath("F", "In", "Y")
+		return vPath("F", g.inner(), "Y")
 	case 2:
 		return vSel(vPath("F", "FArr"), cInt(int64(g.p.intn(3))))
 	default:
@@ -70,7 +79,7 @@ func (g *gen) floatVar() *Var {
 func (g *gen) strVar() *Var {
 	switch g.p.intn(5) {
 	case 0:
-		return vPath("F", "In", "S")
+		return vPath("F", g.inner(), "S")
 	case 1:
 		return vSel(vPath("F", "SArr"), cInt(int64(g.p.intn(3))))
 	case 2:
@@ -206,7 +215,7 @@ func (g *gen) boolExpr(depth int) *Expr {
 		return eParen(true, g.boolExpr(depth-1))
 	case 3:
 		g.ops["!atom"]++
-		return eAtom(&Atom{Kind: "neg", A: aVar(pick(g.p, []*Var{vPath("F", "B"), vPath("F", "In", "B")}))})
+		return eAtom(&Atom{Kind: "neg", A: aVar(pick(g.p, []*Var{vPath("F", "B"), vPath("F", g.inner(), "B")}))})
 	default:
 		return g.cmp()
 	}
@@ -250,7 +259,7 @@ func (g *gen) cmp() *Expr {
 		case 2:
 			return mkBin("<", method(aVar(vName("F")), "GetI64"), cInt(int64(1+g.p.intn(4))))
 		default:
-			return eVar(pick(g.p, []*Var{vPath("F", "B"), vPath("F", "In", "B")}))
+			return eVar(pick(g.p, []*Var{vPath("F", "B"), vPath("F", g.inner(), "B")}))
 		}
 	case 10:
 		return mkBin(pick(g.p, []string{"<", ">", "==", "<=", ">=", "!="}), eVar(vPath("F", "T")), eVar(vPath("F", "T")))
@@ -315,7 +324,7 @@ func (g *gen) action() []*Stmt {
 		x := g.strVar()
 		return []*Stmt{assign(x, "=", mkBin("+", eVar(x), cStr("x")))}
 	case 7:
-		return []*Stmt{assign(pick(g.p, []*Var{vPath("F", "B"), vPath("F", "In", "B")}), "=", g.boolExpr(0))}
+		return []*Stmt{assign(pick(g.p, []*Var{vPath("F", "B"), vPath("F", g.inner(), "B")}), "=", g.boolExpr(0))}
 	case 8:
 		// a mutating method announced with Forget / Changed
 		return []*Stmt{call(&Atom{Kind: "method", A: aVar(vName("F")), F: "AddTo", Args: []*Expr{cInt(int64(1 + g.p.intn(2)))}}),
